@@ -269,6 +269,9 @@ def run_shard(mod, tier, seed, shard, nshards, only=None, examples=None):
             if budget is not None and state["fail_t"] is None and time.time() - t0 > budget:
                 state["exhausted"] = True
                 return
+            if os.environ.get("WV_TRACE_CASE"):   # dev aid: which case is running when a shard is killed from outside
+                with open(os.environ["WV_TRACE_CASE"], "w") as _tf:
+                    json.dump({"sub": subname, "case": case}, _tf, default=repr)
             out = execute(sub, case)
             if state["fail_t"] is None:
                 stats.record(subname, case, out)
